@@ -34,7 +34,7 @@ type relayScenario struct {
 	Consumers []consumerPlan
 	Push      bool
 	Stream    string
-	FmtMode   int // 0: always fmt 0; 1: random legal format
+	FmtMode   int // 0: always fmt 0; 1: random legal format (deltas below 0xFFFFFF); 2: the same, and deltas ≥ 0xFFFFFF sent as format-1 deltas with the extended field
 }
 
 type recvItem struct {
@@ -70,6 +70,7 @@ type relayResult struct {
 	PushSeen  bool
 	PushTargetsSeen    int
 	PushTargetsMissing []int
+	ExtDeltas          int // messages the publisher sent as format-1 deltas ≥ 0xFFFFFF
 }
 
 func mapRtmp(ix *gen.Index, msgs []ref.RtmpMsg) []recvItem {
@@ -212,6 +213,8 @@ func runRelay(c *fw.Ctx, sc relayScenario, rng *rand.Rand) (res relayResult) {
 	var live []*liveConsumer
 	var hook *srv.HookSession
 	nonEmpty := 0
+	lastTs := map[int]uint32{}
+	extDeltas := 0
 	join := func(p consumerPlan, k int) {
 		rec := &consumerRec{Plan: p, Kind: p.Kind, JoinK: k, LeftAt: -1, IncStart: incStart}
 		res.Consumers = append(res.Consumers, rec)
@@ -391,10 +394,17 @@ func runRelay(c *fw.Ctx, sc relayScenario, rng *rand.Rand) (res relayResult) {
 			}
 		}
 		f := 0
-		if sc.FmtMode == 1 {
+		if sc.FmtMode >= 1 {
 			lf := pr.RC.W.LegalFormats(ref.RtmpMsg{Csid: csidFor(m.Type), TypeID: m.Type, StreamID: pr.Msid, Ts: m.Ts, Payload: m.Payload})
 			f = lf[rng.Intn(len(lf))]
 		}
+		if prev, ok := lastTs[csidFor(m.Type)]; ok && sc.FmtMode == 2 && m.Ts >= prev && m.Ts-prev >= 0xFFFFFF {
+			// a delta that does not fit 24 bits, sent as a delta all the same (format 1, extended
+			// timestamp field carrying the delta - spec 5.3.1.3)
+			f = 1
+			extDeltas++
+		}
+		lastTs[csidFor(m.Type)] = m.Ts
 		if err := pr.RC.Send(ref.RtmpMsg{Csid: csidFor(m.Type), TypeID: m.Type, StreamID: pr.Msid, Ts: m.Ts, Payload: m.Payload}, f); err != nil {
 			res.Err = fmt.Sprintf("publisher send %d: %v", i, err)
 			return
@@ -484,6 +494,7 @@ func runRelay(c *fw.Ctx, sc relayScenario, rng *rand.Rand) (res relayResult) {
 			}
 		}
 	}
+	res.ExtDeltas = extDeltas
 	var allPush []*ref.StubSession
 	if stub != nil {
 		for _, st := range append([]*ref.RtmpStub{stub}, moreStubs...) {
